@@ -110,24 +110,38 @@ def runs_to_traces(docs, runs):
     return traces, anomalies
 
 
-def validate_traces(module, traces, wd, workers=8, timeout=5400):
-    """-> (tlc result, {trace index: class or 'ok'})"""
-    with open(os.path.join(wd, "traces.ndjson"), "w") as f:
-        for t in traces:
-            f.write(json.dumps(t) + "\n")
-    res = vlib.run_tlc(module, module + ".cfg", wd, env={"DOCS": "docs.json", "TRACES": "traces.ndjson"},
-                       workers=workers, timeout=timeout)
+def validate_traces(module, traces, wd, workers=8, timeout=5400, chunk=6000):
+    """-> (tlc result, {trace index: class or 'ok'}); the traces are judged in chunks (one TLC run each: a very large
+    ndjson file makes TLC spend its time in garbage collection)"""
     verdict = {}
     expected = {}
-    for t in vlib.tlc_tuples(res["text"], "ACCEPT"):
-        v = vlib.parse_tla_value(t)
-        verdict[v[1]] = ("ok", 0)
-    for t in vlib.tlc_tuples(res["text"], "REJECT"):
-        v = vlib.parse_tla_value(t)
-        verdict[v[1]] = (v[3], v[2])
-        if len(v) > 4:
-            expected[v[1]] = v[4]
-    res["text"] = ""
+    total = {"distinct": 0, "states": 0, "wall": 0.0}
+    res = None
+    for lo in range(0, max(1, len(traces)), chunk):
+        part = traces[lo:lo + chunk]
+        with open(os.path.join(wd, "traces.ndjson"), "w") as f:
+            for t in part:
+                f.write(json.dumps(t) + "\n")
+        res = vlib.run_tlc(module, module + ".cfg", wd, env={"DOCS": "docs.json", "TRACES": "traces.ndjson"},
+                           workers=workers, timeout=timeout)
+        n = 0
+        for t in vlib.tlc_tuples(res["text"], "ACCEPT"):
+            v = vlib.parse_tla_value(t)
+            verdict[v[1] + lo] = ("ok", 0)
+            n += 1
+        for t in vlib.tlc_tuples(res["text"], "REJECT"):
+            v = vlib.parse_tla_value(t)
+            verdict[v[1] + lo] = (v[3], v[2])
+            n += 1
+            if len(v) > 4:
+                expected[v[1] + lo] = v[4]
+        res["text"] = ""
+        for k in total:
+            total[k] += res.get(k, 0)
+        if n != len(part):
+            raise ToolError("%s judged %d of %d traces" % (module, n, len(part)))
+    res = dict(res or {})
+    res.update(total)
     res["expected"] = expected
     if len(verdict) != len(traces):
         raise ToolError("%s judged %d of %d traces" % (module, len(verdict), len(traces)))
